@@ -487,10 +487,16 @@ theorem mintingEnabled_order (s : UState) (o : Option Pair) :
 
 open FxVerif.Gen.C08b in
 /-- **which precompile conversions are keeper-level nested EVM executions** (the ones `mixed_tx_coherent` needs its
-hypothesis for): exactly `bridgeCall` (`EvmToBaseCoin`); `crossChain` and `increaseBridgeFee` convert through the
-running EVM (`handlerERC20Token`, which itself makes no keeper-level EVM call).  A new nested path changes this table. -/
+hypothesis for): `bridgeCall` (`EvmToBaseCoin`), `cancelSendToExternal` (the refund of `RemoveFromOutgoingPoolAndRefund`
+is converted back by the erc20 keeper's `ConvertCoin`) and `executeClaim` (`ExecuteClaim`); `crossChain` and
+`increaseBridgeFee` convert through the running EVM (`handlerERC20Token`, which itself makes no keeper-level EVM call).
+A new nested path changes this table. -/
 theorem nested_conversion_paths_match_code :
-    precompileTokenConversions.filter (fun p => p.2.1 = "keeper") = [("BridgeCallMethod", "keeper", "EvmToBaseCoin")] ∧
+    precompileTokenConversions.filter (fun p => p.2.1 = "keeper") =
+      [("BridgeCallMethod", "keeper", "EvmToBaseCoin"),
+       ("CancelSendToExternalMethod", "keeper", "RemoveFromOutgoingPoolAndRefund"),
+       ("ExecuteClaimMethod", "keeper", "ExecuteClaim")] ∧
+    hookOutgoingRefund_usesKeeperConvertCoin = true ∧
     (precompileTokenConversions.filter (fun p => p.2.2 = "handlerERC20Token")).map Prod.fst =
       ["CrossChainMethod", "IncreaseBridgeFeeMethod"] ∧
     handlerERC20Token_usesKeeperLevelEVM = false := by
@@ -785,6 +791,15 @@ theorem mixed_tx_stale_read_creates_tokens :
     let r := txResult [.evm (balanceOf 0) 0, .nested (burn 0 20) 20 0, .evm (transfer 0 1 5) 0] (store0 50 0 0 100 0) 100
     r.1 = true ∧ r.2.1 (.bal 0) = 45 ∧ r.2.1 (.bal 1) = 5 ∧ r.2.1 .supply = 80 ∧
     tokDiff [0, 1, 2] r.2.1 = tokDiff [0, 1, 2] (store0 50 0 0 100 0) + 20 := by
+  decide
+
+/-- witness 3 (refund lost): the contract transfers 5 tokens away, then `cancelSendToExternal` refunds 20 through a
+keeper-level `mint` whose balance write is overwritten at commit: 20 coins enter the escrow, the supply grows by 20, the
+contract's balance does not — 20 tokens too few -/
+theorem mixed_tx_dirty_slot_loses_refund :
+    let r := txResult [.evm (transfer 0 1 5) 0, .nested (mint 0 20) 0 20] (store0 50 0 0 100 0) 100
+    r.1 = true ∧ r.2.1 (.bal 0) = 45 ∧ r.2.1 (.bal 1) = 5 ∧ r.2.1 .supply = 120 ∧ r.2.2 = 120 ∧
+    tokDiff [0, 1, 2] r.2.1 = tokDiff [0, 1, 2] (store0 50 0 0 100 0) - 20 := by
   decide
 
 /-- the same conversions through the running EVM (`crossChain`: `transferFrom` then `burn` by the precompile) are
